@@ -149,9 +149,9 @@ Theorem rgb_export_ok_holds i :
   rgb_export_ok (gW (ig i)) (gH (ig i)) (gwib (ig i)) (idata i) (ipixc i) (ibckg i) (rgb_slice i) = true.
 Proof.
   intros HW HH Hp Hb. destruct (rgb_export i HW HH Hp Hb) as [L P].
-  unfold rgb_export_ok. apply andb_true_intro; split; [lia|].
+  unfold rgb_export_ok, rgb_export_ok_p. apply andb_true_intro; split; [lia|].
   apply all_rect_intro. intros x y Hx Hy. destruct (P x y ltac:(lia) ltac:(lia)) as [A B].
-  cbv zeta. rewrite A, B. lia.
+  cbv zeta in A, B. cbv zeta. rewrite A, B. unfold pixel_colour. lia.
 Qed.
 
 (* ---------- 4-bit grey export, even widths ---------- *)
@@ -175,7 +175,7 @@ Proof.
   { unfold gray_slice. fold W H. fold rowf. rewrite Hn. apply firstn_all2. unfold zlen in Hall. lia. }
   rewrite Hslice. split; [rewrite Hall; nia|].
   intros x y Hx Hy.
-  unfold nibble_at.
+  unfold nibble_at, nibble_get.
   replace ((y * W + x) / 2) with (y * m + x / 2) by nia.
   replace ((y * W + x) mod 2) with (x mod 2) by nia.
   rewrite (znth_flat_map_zseq rowf H m) by (auto; lia).
@@ -200,6 +200,7 @@ Theorem gray_export_ok_holds i :
   gray_export_ok (gW (ig i)) (gH (ig i)) (gwib (ig i)) (idata i) (ipixc i) (ibckg i) (gray_slice i) = true.
 Proof.
   intros HW HH He Hp Hb. destruct (gray_export i HW HH He Hp Hb) as [L P].
-  unfold gray_export_ok. apply andb_true_intro; split; [lia|].
-  apply all_rect_intro. intros x y Hx Hy. rewrite (P x y) by lia. lia.
+  unfold gray_export_ok, gray_export_ok_p. apply andb_true_intro; split; [lia|].
+  apply all_rect_intro. intros x y Hx Hy. pose proof (P x y ltac:(lia) ltac:(lia)) as Q.
+  unfold nibble_at, pixel_colour in Q. rewrite Q. lia.
 Qed.
